@@ -111,6 +111,21 @@ def harness(case, tier):
     if len(bibs) != 1:
         return {'class': 'no-bib'}
 
+    # ---------------- the authenticated octets, constructed independently from the transmitted bundle
+    macs = [e for e in idealcose._entries() if e['kind'] == 'mac']
+    sb = rfc9171.read_secblock(bibs[0]['data'])
+    scope = dict((int(k), int(v)) for (k, v) in dict((int(k), v) for (k, v) in sb['params'])[5].items())
+    c.prove(len(macs) == len(sb['targets']), 'one-mac-per-target', detail=len(macs))
+    for ix, tnum in enumerate(sb['targets']):
+        tgt = [x for x in b['blocks'] if bool(x['num'] == tnum)][0]
+        msg = symcbor.loads(sb['results'][ix][0][1])
+        aad = rfc9171.bpsec_cose_aad(b, sb['source'], scope, tgt)
+        want = rfc9171.enc(['MAC0', msg[0], aad, tgt['data']])
+        if ix < len(macs):
+            c.prove(same_bytes(macs[ix]['data'], want), 'authenticated-octets-equal-independent-construction',
+                    detail=dict(got=macs[ix]['data'], want=want))
+        c.prove(msg[2] is None, 'payload-detached-from-message', detail=repr(msg[2]))
+
     # ---------------- alteration on the wire (CRCs recomputed, as an on-path node could)
     p = dict(b['primary'])
     pri = dict(flags=p['flags'], crc_type=p['crc_type'], destination=rfc9171.eid_text(p['destination']),
